@@ -273,6 +273,27 @@ def naming_equivalence(out, m, kind, ent, sname, lab):
                               f"as an int32 array [{ent.name}, mesh {sname}:{lab}]", case=case)
     if kind == 'wedge':
         return
+    # omitted arguments mean: all cells / the boundary facets / side 0 / the element's default integration order
+    try:
+        from skfem import InteriorFacetBasis
+        T_ = None
+        pairs_ = [('CellBasis() vs elements=all', lambda: CellBasis(m, ent.make(), intorder=4),
+                   lambda: CellBasis(m, ent.make(), elements=np.arange(nt, dtype=np.int32), intorder=4), True),
+                  ('FacetBasis() vs facets=boundary_facets()', lambda: FacetBasis(m, ent.make(), intorder=4),
+                   lambda: FacetBasis(m, ent.make(), facets=m.boundary_facets(), intorder=4), False)]
+        if (m.f2t[1] != -1).any():
+            pairs_.append(('InteriorFacetBasis() vs side=0', lambda: InteriorFacetBasis(m, ent.make(), intorder=4),
+                           lambda: InteriorFacetBasis(m, ent.make(), intorder=4, side=0), False))
+        for dl, f1, f2, skip_dofs in pairs_:
+            out.ev()
+            a1, a2 = _basis_arrays(f1()), _basis_arrays(f2())
+            if len(a1) != len(a2) or any(x.shape != y.shape or not np.allclose(x, y, rtol=1e-13, atol=1e-13 * (1 + np.abs(y).max(initial=0)))
+                                         for x, y in zip(a1, a2)):
+                out.violation("C01|cells|basis-default-argument", f"{dl}: the basis built with the argument omitted differs from the one "
+                              f"built with the documented default given explicitly [{ent.name}, mesh {sname}:{lab}]",
+                              case={'seed': sname, 'variant': lab, 'element': ent.name, 'default': dl})
+    except Exception as e:
+        out.count(f'default_argument_equivalence_unsupported:{type(e).__name__}')
     for F in ((nf - 1,), (0, nf - 1)):
         try:
             ref = _basis_arrays(FacetBasis(m, ent.make(), facets=np.array(F, dtype=np.int32), intorder=4))
